@@ -12,16 +12,25 @@ def stat_query(q, pid):
     q.group = 'first-time call from arbitrary static state: ' + q.group
     return q
 
-def lacon_query(pid, n, prec='d', timeout=900):
+LACON_STATICS = ['iter', 'jump', 'jlast', 'i', 'j', 'altsgn', 'estold']
+
+def lacon_query(pid, n, prec='d', script=None, free_from=None, timeout=300):
     """self-composition of the norm estimator: copy A starts from arbitrary values of its function-static loop state"""
     f = {'d': 'dlacon.c', 's': 'slacon.c'}[prec]
     blas = ['/repo/CBLAS/%s' % b for b in ({'d': ['dasum.c', 'idamax.c', 'dcopy.c'], 's': ['sasum.c', 'isamax.c', 'scopy.c']}[prec])]
     fn = prec + 'lacon_'
-    q = Query('%s.lacon.%s.n%d' % (pid, prec, n), 'lacon_h.c', [(f, ['-D%s=dlacon_A' % fn]), (f, ['-D%s=dlacon_B' % fn])] + blas, defs={'N': n}, engine='smt', mode='real',
+    # copy A: the function statics become harness-owned globals (same lifetime): -Dstatic=extern + renames
+    a_flags = ['-D%s=dlacon_A' % fn, '-Dstatic=extern'] + ['-D%s=vhA_%s' % (v, v) for v in LACON_STATICS]
+    defs = {'N': n}
+    tag = ''
+    if script:
+        defs['SCRIPT'] = script
+        tag = '.s%d' % script
+        if free_from is not None:
+            defs['FREE_FROM'] = free_from
+            tag += '.f%d' % free_from
+    q = Query('%s.lacon.%s.n%d%s' % (pid, prec, n, tag), 'lacon_h.c', [(f, a_flags), (f, ['-D%s=dlacon_B' % fn])] + blas, defs=defs, engine=('sat' if script and free_from is None else 'smt'), mode='real',
               unwind=16, timeout=timeout, group='norm estimator: a new estimate does not depend on the leftover static loop state (self-composition)')
-    q.instrument = ['--nondet-static-matching', r'.*dlacon_A.*']
-    q.witness_defs = {'WIT_PIN': None}
-    q.witness = False   # the reachability twin (a satisfiable non-linear query) is not decided within the cap by any solver of the portfolio; see DESIGN 5.1
     return q
 
 def plan(tier, seed):
@@ -44,10 +53,13 @@ def plan(tier, seed):
     for (pat, pv) in [(0xf, (0, 1)), (0x7, (1, 0)), (0xb, (0, 1))]:
         k += 1
         qs.append(stat_query(fullx_query('C18', 2, pat, pv, (0, 1), CONFIGS[k % 8], trans=k % 3, scen=1, usepr=k % 2), 'C18'))
-    # dlacon_ (used by ?gscon and ?gsrfs) keeps loop state in function statics between reverse-communication calls
-    # (kept out of the plans: the query is unsat in ~120 s on the unchanged tree, but neither its reachability twin nor the
-    #  counterexample on the seeded change C18-dlacon-iter-not-reset is found by any solver within 900 s -- see DESIGN 5.1)
-    # qs.append(lacon_query('C18', 2))
+    # dlacon_ (used by ?gscon and ?gsrfs) keeps loop state in function statics between the reverse-communication calls of
+    # one estimate: a new estimate must not depend on what they held (self-composition, statics of one copy arbitrary)
+    for sc in (1, 2, 3):
+        qs.append(lacon_query('C18', 2, script=sc))                   # every reply of the caller pinned (three scripts through the main loop)
+        for ff in ((2, 4, 6) if sc == 2 else (2,)):
+            qs.append(lacon_query('C18', 2, script=sc, free_from=ff))   # scripted prefix, every later reply arbitrary
+    qs.append(lacon_query('C18', 1))                                  # n = 1: every reply arbitrary
     return qs
 
 META = {
